@@ -11,6 +11,46 @@ struct HistCase {
     /// is C04's subject); what `replay_events` answers from it stays strict.
     #[serde(default)]
     lose: Vec<(u16, u16, bool)>,
+    /// death of the authority between the log append of a frame and its cache appends, then a
+    /// restart: when the step chosen here is a single-frame append, every file under the cache
+    /// directory is put back to its image from before the step (what the disk holds when the process
+    /// dies right after the log flush) and the store is reopened. Live subscriber, log and every
+    /// replay must still hold the same frames; the raw sidecar file of that thread is no longer
+    /// compared, and what `replay_events` answers from caches is compared again only once the thread
+    /// has appended after the restart (until then the cache is knowingly behind: C04/C05's subject).
+    #[serde(default)]
+    crash: Vec<u16>,
+}
+
+fn dir_image(dir: &Path) -> BTreeMap<std::path::PathBuf, Vec<u8>> {
+    let mut out = BTreeMap::new();
+    if let Ok(rd) = std::fs::read_dir(dir) {
+        for e in rd.flatten() {
+            let p = e.path();
+            if p.is_file() {
+                if let Ok(b) = std::fs::read(&p) {
+                    out.insert(p, b);
+                }
+            }
+        }
+    }
+    out
+}
+
+fn restore_dir_image(dir: &Path, image: &BTreeMap<std::path::PathBuf, Vec<u8>>) {
+    if let Ok(rd) = std::fs::read_dir(dir) {
+        for e in rd.flatten() {
+            let p = e.path();
+            if p.is_file() && !image.contains_key(&p) {
+                let _ = std::fs::remove_file(&p);
+            }
+        }
+    }
+    for (p, b) in image {
+        if std::fs::read(p).ok().as_deref() != Some(b.as_slice()) {
+            let _ = std::fs::write(p, b);
+        }
+    }
 }
 
 fn hist_case_strategy() -> BoxedStrategy<HistCase> {
@@ -28,7 +68,11 @@ fn hist_case_strategy() -> BoxedStrategy<HistCase> {
         3 => Just(Vec::new()),
         2 => proptest::collection::vec((any::<u16>(), any::<u16>(), proptest::bool::weighted(0.3)), 1..3),
     ];
-    (ops, lose).prop_map(|(ops, lose)| HistCase { ops, lose }).boxed()
+    let crash = prop_oneof![
+        3 => Just(Vec::new()),
+        2 => proptest::collection::vec(any::<u16>(), 1..3),
+    ];
+    (ops, lose, crash).prop_map(|(ops, lose, crash)| HistCase { ops, lose, crash }).boxed()
 }
 
 /// ids of the full sidecars present: `<id>.jsonl` (index / filtered sidecars carry extra dots)
@@ -137,6 +181,9 @@ fn run_history(case: &HistCase) -> CaseReport {
     let mut panicked = false;
     let mut lost: BTreeSet<String> = BTreeSet::new();
     let mut appended_after_loss = false;
+    // threads whose caches a simulated death left one frame behind and that have not appended since
+    let mut crashed_stale: BTreeMap<String, usize> = BTreeMap::new();
+    let mut crashes = 0u64;
     for (i, op) in case.ops.iter().enumerate() {
         for (at, which, whole) in &case.lose {
             if rv::engine::pick(*at, case.ops.len()) != i {
@@ -160,6 +207,9 @@ fn run_history(case: &HistCase) -> CaseReport {
         }
         let log_len = |it: &Interp| std::fs::metadata(it.sandbox.log_path()).map(|m| m.len()).unwrap_or(0);
         let frames_before = log_len(&it);
+        let crash_here = case.crash.iter().any(|at| rv::engine::pick(*at, case.ops.len()) == i)
+            && matches!(op.tag(), "msg" | "run_spawned" | "run_ended" | "selection_decided" | "context_compiled" | "cursor" | "side_effects");
+        let caches_before = if crash_here { Some((dir_image(&it.sandbox.streams_dir()), it.sandbox.log_bytes())) } else { None };
         match catch(|| it.apply(op)) {
             Ok(r) => {
                 if r.result.is_err() {
@@ -178,6 +228,28 @@ fn run_history(case: &HistCase) -> CaseReport {
             // the store object was re-created: the old channel is closed (drained above)
             rx = it.live.store.subscribe();
         }
+        if let Some((image, log_before)) = caches_before {
+            let log_after = it.sandbox.log_bytes();
+            let added = log_after.get(log_before.len()..).unwrap_or(&[]);
+            // exactly one whole frame was appended: the death falls between its log flush and its cache appends
+            if log_after.starts_with(&log_before) && added.iter().filter(|b| **b == b'\n').count() == 1 && added.last() == Some(&b'\n') {
+                if let Ok(v) = serde_json::from_slice::<Value>(added) {
+                    if v["stream_kind"] == "continuity" {
+                        let id = v["stream_id"].as_str().unwrap_or("?").to_string();
+                        restore_dir_image(&it.sandbox.streams_dir(), &image);
+                        it.restart();
+                        rx = it.live.store.subscribe();
+                        let at_crash = rv::store::parse_log_values(&log_after)
+                            .map(|all| all.iter().filter(|f| f["stream_kind"] == "continuity" && f["stream_id"] == id.as_str()).count())
+                            .unwrap_or(0);
+                        crashed_stale.insert(id.clone(), at_crash);
+                        lost.insert(id);
+                        crashes += 1;
+                        rep.class("crash:between_log_and_cache_appends");
+                    }
+                }
+            }
+        }
         if obs.lagged {
             rep.inconclusive("broadcast_lagged");
             return rep;
@@ -185,11 +257,15 @@ fn run_history(case: &HistCase) -> CaseReport {
         if !lost.is_empty() && log_len(&it) > frames_before {
             appended_after_loss = true;
         }
-        compare_live_sidecar_log(&it, &obs, &lost, i, op.tag(), &mut rep);
+        if let Some(log) = compare_live_sidecar_log(&it, &obs, &lost, i, op.tag(), &mut rep) {
+            // a thread that appended after the restart has reconciled its caches with the log
+            crashed_stale.retain(|id, at_crash| log.get(id).map(|l| l.len()).unwrap_or(0) <= *at_crash);
+        }
         if panicked || !rep.ok() {
             break;
         }
     }
+    rep.class_if(crashes > 0 && crashed_stale.is_empty(), "crash:thread_appended_after_restart");
     if obs.non_continuity_live > 0 {
         rep.fail("four_way|continuity|foreign_frame_live", json!({"count": obs.non_continuity_live}));
     }
@@ -205,7 +281,7 @@ fn run_history(case: &HistCase) -> CaseReport {
         for v in l {
             types.insert(v["type"].as_str().unwrap_or("?").to_string());
         }
-        if panicked {
+        if panicked || crashed_stale.contains_key(id) {
             continue;
         }
         match catch(|| it.live.store.replay_events(id)) {
@@ -243,6 +319,9 @@ fn run_history(case: &HistCase) -> CaseReport {
     let sidecars_before = full_sidecar_ids(&it.sandbox.streams_dir());
     let reopened = it.sandbox.open();
     for (id, l) in &log {
+        if crashed_stale.contains_key(id) {
+            continue;
+        }
         match catch(|| reopened.store.replay_events(id)) {
             Ok(Ok(evs)) => {
                 if let Some((_, kind, detail)) = seq_diff(&events_to_values(&evs), l) {
